@@ -132,8 +132,10 @@ void Log::debugLog(std::string&& buf) {
   }
 
   auto* q = state_.getCurrentQueue();
+  // buf is empty once it has been moved from: take its size first
+  const auto size = buf.size();
   q->emplace_back(std::move(buf));
-  state_.curSize += buf.size();
+  state_.curSize += size;
   state_.cv.notify_one();
 }
 
@@ -156,13 +158,16 @@ void Log::ioThread(std::ostream& debug_sink) {
       io_thread_running = state_.ioThreadRunning;
       numDiscarded = state_.numDiscarded;
 
-      state_.curSize = 0;
+      // curSize keeps counting the batch we are about to write: until it has
+      // reached the sink it is still backlog (the sink may block for long)
       state_.numDiscarded = 0;
       state_.ioTick++; // flips the last bit that getCurrentQueue uses
     }
 
+    size_t flushed = 0;
     for (auto& buf : *q) {
       debug_sink << buf;
+      flushed += buf.size();
     }
 
     if (numDiscarded) {
@@ -173,6 +178,11 @@ void Log::ioThread(std::ostream& debug_sink) {
 
     // clear() doesn't shrink capacity, only invalidates contents
     q->clear();
+
+    {
+      std::lock_guard<std::mutex> lock(state_.lock);
+      state_.curSize -= flushed;
+    }
   }
 }
 
